@@ -1,0 +1,56 @@
+//go:build verif
+
+package synchronization
+
+// Contracts for the text form of the mode enumerations of this package
+// (property C37: "every mode written as text is read back as the same
+// value"). Comment-only file: compiled only under the "verif" build tag,
+// contains no code. The "//@" lines are read by govc.
+//
+// For every supported (named, non-default) value v with documented name N:
+// the marshalling method writes v as exactly the bytes of N and reports no
+// error [written]; UnmarshalText, given exactly the bytes of N, reports no
+// error and stores v [readback]; it accepts nothing but supported values
+// [accepted] and leaves the destination alone when it fails [rejected]. The
+// round trip "UnmarshalText(MarshalText(v)) yields v and no error" is the
+// instance of [readback] for the bytes that [written] describes.
+
+// textis(b, s): the byte slice b spells the string s.
+//@ pred textis(b, s) = len(b) == len(s) && forall i in 0..len(s) :: b[i] == s[i]
+
+//@ func (WatchMode).MarshalText
+//@   ensures[written] m == WatchMode_WatchModePortable ==> result1 == nil && textis(result0, "portable")
+//@   ensures[written] m == WatchMode_WatchModeForcePoll ==> result1 == nil && textis(result0, "force-poll")
+//@   ensures[written] m == WatchMode_WatchModeNoWatch ==> result1 == nil && textis(result0, "no-watch")
+
+//@ func (*WatchMode).UnmarshalText
+//@   requires m != nil
+//@   ensures[readback] textis(textBytes, "portable") ==> result == nil && deref(m) == WatchMode_WatchModePortable
+//@   ensures[readback] textis(textBytes, "force-poll") ==> result == nil && deref(m) == WatchMode_WatchModeForcePoll
+//@   ensures[readback] textis(textBytes, "no-watch") ==> result == nil && deref(m) == WatchMode_WatchModeNoWatch
+//@   ensures[accepted] result == nil ==> deref(m) == WatchMode_WatchModePortable || deref(m) == WatchMode_WatchModeForcePoll || deref(m) == WatchMode_WatchModeNoWatch
+//@   ensures[rejected] result != nil ==> deref(m) == old(deref(m))
+
+//@ func (ScanMode).MarshalText
+//@   ensures[written] m == ScanMode_ScanModeFull ==> result1 == nil && textis(result0, "full")
+//@   ensures[written] m == ScanMode_ScanModeAccelerated ==> result1 == nil && textis(result0, "accelerated")
+
+//@ func (*ScanMode).UnmarshalText
+//@   requires m != nil
+//@   ensures[readback] textis(textBytes, "full") ==> result == nil && deref(m) == ScanMode_ScanModeFull
+//@   ensures[readback] textis(textBytes, "accelerated") ==> result == nil && deref(m) == ScanMode_ScanModeAccelerated
+//@   ensures[accepted] result == nil ==> deref(m) == ScanMode_ScanModeFull || deref(m) == ScanMode_ScanModeAccelerated
+//@   ensures[rejected] result != nil ==> deref(m) == old(deref(m))
+
+//@ func (StageMode).MarshalText
+//@   ensures[written] m == StageMode_StageModeMutagen ==> result1 == nil && textis(result0, "mutagen")
+//@   ensures[written] m == StageMode_StageModeNeighboring ==> result1 == nil && textis(result0, "neighboring")
+//@   ensures[written] m == StageMode_StageModeInternal ==> result1 == nil && textis(result0, "internal")
+
+//@ func (*StageMode).UnmarshalText
+//@   requires m != nil
+//@   ensures[readback] textis(textBytes, "mutagen") ==> result == nil && deref(m) == StageMode_StageModeMutagen
+//@   ensures[readback] textis(textBytes, "neighboring") ==> result == nil && deref(m) == StageMode_StageModeNeighboring
+//@   ensures[readback] textis(textBytes, "internal") ==> result == nil && deref(m) == StageMode_StageModeInternal
+//@   ensures[accepted] result == nil ==> deref(m) == StageMode_StageModeMutagen || deref(m) == StageMode_StageModeNeighboring || deref(m) == StageMode_StageModeInternal
+//@   ensures[rejected] result != nil ==> deref(m) == old(deref(m))
